@@ -37,6 +37,21 @@ pub fn run(ctx: &mut Ctx) {
                 }
             }
             laws_over(ctx, &dom, case as usize, 25);
+            // subtraction of the complex weight type (it has a `Sub` operator although it does not
+            // declare itself a `Ring`): value against the oracle, and (a+b)-b = a
+            let a = &dom[case as usize];
+            for b in &dom {
+                ctx.count("complex_sub_pairs", 1);
+                let d = a.to_r() - b.to_r();
+                let want = OCx(a.0.sub(b.0), a.1.sub(b.1));
+                if !want.matches(&d) {
+                    fail(ctx, "sub_value", a, b, b, String::new());
+                }
+                let back = (a.to_r() + b.to_r()) - b.to_r();
+                if !a.matches(&back) {
+                    fail(ctx, "sub_inverts_add", a, b, b, String::new());
+                }
+            }
         });
     }
     for case in ctx.cases("eu", 25, false) {
@@ -94,6 +109,10 @@ pub fn run(ctx: &mut Ctx) {
     grid!("ff_u128_large_2", primes::U128_LARGE_2);
     grid!("ff_u128_large_3", primes::U128_LARGE_3);
     grid!("ff_u128_large_4", primes::U128_LARGE_4);
+    grid!("ff_user_m107", crate::semi::M107);
+    grid!("ff_user_m127", crate::semi::M127);
+    field!("ff_user_m107", crate::semi::M107);
+    field!("ff_user_m127", crate::semi::M127);
     field!("ff_u32_tiny", primes::U32_TINY);
     field!("ff_u32_small", primes::U32_SMALL);
     field!("ff_u64_largest", primes::U64_LARGEST);
